@@ -14,11 +14,24 @@ void harness(void){
   int subfr=vt_range(0,1)?80:40;
   opus_int32 maxg=vt_int();
   opus_int8 i1=-1,i2=-1; opus_int32 n1=0,n2=0,r1=0,r2=0; int g1=0,g2=0;
+#ifdef DUPROW
+  /* tie-break: a two-entry codebook holding the real row ROW twice (every input ties): both kernels must keep the same one of two equal
+     minima (the C kernel keeps the last) */
+  opus_int8 cbd[10]; opus_uint8 cbgd[2], cld[2];
+  for(int k=0;k<5;k++){ cbd[k]=cbd[5+k]=vt_flat_ltp_vq[CBK][5*ROW+k]; }
+  cbgd[0]=cbgd[1]=vt_flat_ltp_gain[CBK][ROW]; cld[0]=cld[1]=vt_flat_ltp_bits[CBK][ROW];
+  const opus_int8 *cb=cbd; const opus_uint8 *cbg=cbgd; const opus_uint8 *cl=cld; int L=2;
+#else
   const opus_int8 *cb=vt_flat_ltp_vq[CBK]+5*ROW; const opus_uint8 *cbg=vt_flat_ltp_gain[CBK]+ROW; const opus_uint8 *cl=vt_flat_ltp_bits[CBK]+ROW; int L=NROWS;
+#endif
   silk_VQ_WMat_EC_c(&i1,&n1,&r1,&g1,XX,xX,cb,cbg,cl,subfr,maxg,L);
   silk_VQ_WMat_EC_sse4_1(&i2,&n2,&r2,&g2,XX,xX,cb,cbg,cl,subfr,maxg,L);
   VASSERT(i1==i2,"SSE4.1 kernel selects the same codebook index as the C kernel");
   VASSERT(n1==n2 && r1==r2,"... the same residual energy and rate-distortion value");
   VASSERT(g1==g2,"... and the same gain");
+  #ifdef DUPROW
+  VWITNESS(i1==1 && r1!=0);
+#else
   VWITNESS(i1==NROWS-1 && r1!=0);
+#endif
 }
